@@ -144,6 +144,15 @@ func init() {
 		n, _ := new(big.Int).SetString(s[:k], 10)
 		return tuple{newBigCell(n), s[k:], true}
 	}
+	cmpStr := func(fr *frame, args []value) value {
+		a, b := argString(args[0]), argString(args[1])
+		if isMarked(a) || isMarked(b) {
+			panic(engineAbort{"ordering comparison of strings standing for symbolic content"})
+		}
+		return strings.Compare(a, b)
+	}
+	e["strings.Compare"] = cmpStr
+	e["internal/bytealg.CompareString"] = cmpStr
 	e[v("Switch")] = func(fr *frame, args []value) value {
 		fr.i.needState("switch")
 		fr.i.extState["switch:"+argString(args[0])] = args[1].(bool)
